@@ -71,6 +71,8 @@ def gen_cases(seed, n, threads, max_assign):
         if rng.random() < 0.5:
             g.ctx = ""
             q["p"]["ps"].append(g.bgp(rng.choice([2, 3, 4])))
+        if i % 8 == 3:
+            q = G.twin_query(rng, quads, G.TWIN_KINDS[(i // 8) % len(G.TWIN_KINDS)])
         wide = i % 8 == 7
         if wide:
             V, C = G.V, G.C
